@@ -213,6 +213,42 @@ def check(prog, rep, tier):
                 found='; '.join(probs[:3]), expected='request forwarded unchanged', key='send_update_message')
     else:
         rep.ok('R16.c', 'send_update_message', file=v.file, line=v.node.lineno, found='%d send call(s)' % len(sends))
+    # BGP.send_update: True only when the message Update.construct returned was written; when
+    # construction fails nothing is written and the result is falsy
+    from ..values import Const, Opaque
+    tab = common.get_table(prog, dot_dead=common.env_facts(prog)['dot_dead'], wire=False)
+    m = tab.model
+    bgp = prog.cls('yabgp.core.protocol.BGP')
+    su = bgp.find_method('send_update')
+    probs = []
+    npaths = 0
+    for poid, st in m.setup('Established', 'live'):
+        for k, v, s2 in m.run_method(st, poid, 'send_update', [Opaque('request')]):
+            npaths += 1
+            failed = any(f.startswith('opaque-raise@') and f.endswith('Update.construct') for f in s2.flags)
+            writes = [a for a in s2.actions if a.kind == 'call' and a.meth == 'write' and a.target.startswith('transport')]
+            ret = v.value if isinstance(v, Const) else v.desc()
+            if k == 'raise':
+                probs.append('an exception escapes send_update')
+            elif failed:
+                if writes:
+                    probs.append('Update.construct failed but %s is still written to the transport' %
+                                 (writes[0].args[0].desc() if writes[0].args else '?'))
+                if ret:
+                    probs.append('Update.construct failed but send_update returns %r (success)' % (ret,))
+            else:
+                if ret is True and len(writes) != 1:
+                    probs.append('returns True with %d transport writes' % len(writes))
+                if writes and 'Update.construct()' not in writes[0].args[0].desc():
+                    probs.append('the bytes written are %s, not the result of Update.construct' % writes[0].args[0].desc())
+    if npaths == 0:
+        rep.undecided('R16.c', 'BGP.send_update', found='no path')
+    elif probs:
+        rep.bad('R16.c', 'BGP.send_update', file=su.file, line=su.node.lineno, func=su.qualname,
+                found='; '.join(sorted(set(probs))[:2]), expected='success only for the constructed message on the wire',
+                key='BGP.send_update')
+    else:
+        rep.ok('R16.c', 'BGP.send_update', file=su.file, line=su.node.lineno, found='%d path(s)' % npaths)
     # api_utils.send_* report success only from the protocol's result
     for name, meth in (('send_update', 'send_update'), ('send_bin_update', 'send_bin_update'),
                        ('send_route_refresh', 'send_route_refresh')):
